@@ -638,3 +638,20 @@ func (c *bvCtx) convert(a BV, w int, signed bool) BV {
 	}
 	return c.fixLin(r)
 }
+
+// lowerBound: a constant c with c <= t under the context's facts (the term's own sign rules first).
+func (c *bvCtx) lowerBound(t *Term) (int64, bool) {
+	if t == nil {
+		return 0, false
+	}
+	if t.IsConst() {
+		return t.C, true
+	}
+	if lb, ok := t.LowerBound(); ok {
+		return lb, true
+	}
+	if c.prove(Const(t.C), t) {
+		return t.C, true
+	}
+	return 0, false
+}
